@@ -5,6 +5,7 @@ V="$(cd "$(dirname "$0")/.." && pwd)"
 ID="$1"; TIER="${2:-quick}"
 RACE=""
 if [ "$ID" = C14 ]; then RACE=race; fi
+mkdir -p "$V/.build"
 if ! "$V/scripts/build.sh" $RACE >"$V/.build/build.$ID.log" 2>&1; then
   # a tree that does not build cannot be checked: report as machinery error (exit 2), never a verdict
   mkdir -p "$V/.build"; tail -30 "$V/.build/build.$ID.log" >&2
